@@ -2,9 +2,15 @@
 package scen
 
 import (
+	"encoding/json"
 	"fmt"
 	"math/big"
+	"os"
+	"path/filepath"
+	"strings"
 	"sync"
+
+	"github.com/bnb-chain/tss-lib/v2/tss"
 
 	eckg "github.com/bnb-chain/tss-lib/v2/ecdsa/keygen"
 	edkg "github.com/bnb-chain/tss-lib/v2/eddsa/keygen"
@@ -69,9 +75,38 @@ func EcKey(pattern string, n, t int, seed int64) []eckg.LocalPartySaveData {
 		return v
 	}
 	ecMu.Unlock()
+	// worker subprocesses of one check run share the keys their parent generated (VERIF_KEYDIR is a
+	// scratch directory of that run: keys always come from the code under test of this very run)
+	cache := ""
+	if d := os.Getenv("VERIF_KEYDIR"); d != "" {
+		cache = filepath.Join(d, "ec-"+strings.ReplaceAll(k, "/", "_")+".json")
+		if bz, err := os.ReadFile(cache); err == nil {
+			var v []eckg.LocalPartySaveData
+			if json.Unmarshal(bz, &v) == nil && len(v) == n {
+				for i := range v {
+					for _, x := range v[i].BigXj {
+						x.SetCurve(tss.S256())
+					}
+					v[i].ECDSAPub.SetCurve(tss.S256())
+				}
+				ecMu.Lock()
+				ecKeys[k] = v
+				ecMu.Unlock()
+				return v
+			}
+		}
+	}
 	v, err := fix.GenEc(KeySet(pattern, n, ref.Secp256k1), t, seed, "scen-"+k)
 	if err != nil {
 		panic(err)
+	}
+	if cache != "" {
+		if bz, err := json.Marshal(v); err == nil {
+			tmp := fmt.Sprintf("%s.%d", cache, os.Getpid())
+			if os.WriteFile(tmp, bz, 0o644) == nil {
+				_ = os.Rename(tmp, cache)
+			}
+		}
 	}
 	ecMu.Lock()
 	ecKeys[k] = v
@@ -163,4 +198,21 @@ func EcResharing(n, t int, old []int, n2, t2 int, seed int64, noProofs bool) pro
 	sc.Cfg = netrun.Config{Proto: netrun.EcdsaResharing, EcKeys: keys, Threshold: t, OldN: n, NewKeys: newIDs(n2), NewThreshold: t2, Seed: seed, Label: fmt.Sprint(old),
 		PreParams: pp[len(pp)-n2:], NoProofMod: noProofs, NoProofFac: noProofs}
 	return sc
+}
+
+// FaultScenarios: the configurations used by the FAULT checks (C05, C06); registered under stable
+// names so that parent and worker processes build identical networks.
+func FaultScenarios(seed int64) map[string]func() protomc.Scenario {
+	msg := new(big.Int).SetBytes(core.Bytes("fault-msg", 32))
+	msg.Mod(msg, ref.Secp256k1.N)
+	return map[string]func() protomc.Scenario{
+		"eddsa-keygen":    func() protomc.Scenario { return EdKeygen("small", 3, 1, seed) },
+		"eddsa-signing":   func() protomc.Scenario { return EdSigning("small", 3, 1, []int{0, 1, 2}, msg, 0, seed) },
+		"eddsa-resharing": func() protomc.Scenario { return EdResharing(3, 1, []int{0, 2}, 2, 1, seed) },
+		"ecdsa-signing":   func() protomc.Scenario { return EcSigning("small", 2, 1, []int{0, 1}, msg, 0, seed) },
+		"ecdsa-signing-3": func() protomc.Scenario { return EcSigning("near-q", 3, 1, []int{0, 1, 2}, msg, 0, seed) },
+		"ecdsa-keygen":    func() protomc.Scenario { return EcKeygen("small", 2, 1, seed) },
+		"ecdsa-keygen-3":  func() protomc.Scenario { return EcKeygen("small", 3, 1, seed) },
+		"ecdsa-resharing": func() protomc.Scenario { return EcResharing(2, 1, []int{0, 1}, 2, 1, seed, false) },
+	}
 }
